@@ -384,8 +384,50 @@ def _close_survives_socket_errors(tree, ob):
     ob.require(n >= 1, 'shutdown() in Connection.close')
 
 
+def _arith_state_initialised(tree, ob):
+    ''' state that a peer-driven handler does arithmetic on starts as None in the constructor (the controller of the
+    segment size: last acknowledged length).  A handler can run as soon as the session is established -- an XFER_ACK right
+    behind SESS_INIT, before any transfer has started -- so the number is put in place where the session is established
+    (merge_session_params), not where the first transfer starts: `length - None` is a TypeError out of the receive callback. '''
+    n = 0
+    inits = {}
+    for cname in ('Messenger', 'ContactHandler'):
+        cls = tree.klass(SESS, cname)
+        for m in cls.body:
+            if isinstance(m, ast.FunctionDef) and m.name == '__init__':
+                for st in walk_local(m):
+                    if isinstance(st, ast.Assign) and isinstance(st.value, ast.Constant) and st.value.value is None:
+                        for t in st.targets:
+                            a = self_attr(t)
+                            if a:
+                                inits[a] = st
+    fm = tree.func(SESS, 'Messenger.merge_session_params')
+    estab = {self_attr(t) for st in walk_local(fm) if isinstance(st, ast.Assign) and not (isinstance(st.value, ast.Constant) and st.value.value is None) for t in st.targets if self_attr(t)}
+    for qual in ('ContactHandler.recv_xfer_ack', 'ContactHandler.recv_xfer_data', 'ContactHandler.recv_xfer_refuse'):
+        if not tree.has_func(SESS, qual):
+            continue
+        fv = FuncView(tree, SESS, qual)
+        for b in walk_local(fv.func):
+            if not (isinstance(b, ast.BinOp) and isinstance(b.op, (ast.Sub, ast.Add, ast.Mult, ast.Div, ast.FloorDiv))):
+                continue
+            for side in (b.left, b.right):
+                a = self_attr(side)
+                if not a or a not in inits:
+                    continue
+                n += 1
+                guarded = fv.has(b, 'self.{} is not None'.format(a), True) or fv.has(b, 'self.{} is None'.format(a), False)
+                local = [st for st in walk_local(fv.func) if isinstance(st, ast.Assign) and any(self_attr(t) == a for t in st.targets) and fv.dominates(st, b)[0]]
+                if a in estab or guarded or local:
+                    ob.site(SESS, b, '{}: {} is a number once the session is established'.format(qual, a))
+                else:
+                    ob.violate(SESS, qual, src(b)[:60], 'the handler computes with self.{0}, which the constructor leaves None and which is no longer given a number when the session is established: an '
+                               'acknowledgement that arrives before the first transfer has started (the peer chooses when to send it) raises TypeError out of the receive callback; what was read behind it is never answered'.format(a), b)
+    ob.require(n >= 1, 'arithmetic on constructor-None state in the transfer handlers')
+
+
 def c17a(tree, ob):
     _stop_after_close(tree, ob)
+    _arith_state_initialised(tree, ob)
     _peer_text(tree, ob)
     _close_survives_socket_errors(tree, ob)
     peer_enum_lookups(tree, ob)
